@@ -12,6 +12,7 @@ import (
 	"net/http"
 	"net/http/httptest"
 	"os"
+	"path/filepath"
 	"reflect"
 	"runtime"
 	"runtime/debug"
@@ -879,6 +880,20 @@ func (ss *wSess) subNames() []string {
 // torn down as far as possible so that the bubble can end. synctest's own complaints (deadlock,
 // goroutines left behind) surface as a panic of synctest.Test in the caller and are recorded too.
 func wInBubble(t *testing.T, fn func()) (failure string) {
+	if os.Getenv("VERIF_SLOW") != "" {
+		t0 := time.Now()
+		defer func() {
+			if d := time.Since(t0); d > 2*time.Second {
+				ms, _ := filepath.Glob(filepath.Join(os.Getenv("VERIF_OUT"), "wal-*.json"))
+				for _, m := range ms {
+					b, _ := os.ReadFile(m)
+					out := fmt.Sprintf("%s/slowcase-%d-%d.json", os.Getenv("VERIF_SLOW"), os.Getpid(), time.Now().UnixNano()%100000)
+					os.WriteFile(out, b, 0o644)
+					fmt.Printf("SLOWCASE %v %s\n", d, out)
+				}
+			}
+		}()
+	}
 	defer func() {
 		if r := recover(); r != nil && failure == "" {
 			failure = fmt.Sprintf("bubble: %v", r)
